@@ -100,8 +100,15 @@ func (m *MatchTLS) Match(cx *layer4.Connection) (bool, error) {
 	// (message type and uint24 length) tells how long it is, so keep reading handshake records
 	// until all of it is here - like crypto/tls does
 	const msgHeaderLen = 4
-	for len(rawHello) < msgHeaderLen ||
-		len(rawHello) < msgHeaderLen+(int(rawHello[1])<<16|int(rawHello[2])<<8|int(rawHello[3])) {
+	for {
+		if len(rawHello) >= msgHeaderLen {
+			helloLen := msgHeaderLen + (int(rawHello[1])<<16 | int(rawHello[2])<<8 | int(rawHello[3]))
+			if len(rawHello) >= helloLen {
+				// what follows the ClientHello in its (last) record is not part of it
+				rawHello = rawHello[:helloLen]
+				break
+			}
+		}
 		_, err = io.ReadFull(cx, hdr)
 		if err != nil {
 			return false, err
